@@ -8,6 +8,7 @@
    does), which Reader.i_next refines (Iter.i_next_refines_thm, Iter.indexed_all_refines_thm).
    chunks_wf is the writer guarantee C05: every message of a chunk lies in the chunk index's
    [start, end].  No bound on the number or size of chunks; fuel is explicit. *)
+From Mcap Require ConstsTie LayoutTie DecisionTieR. (* regenerated ties to /repo's source that this property's model relies on *)
 From Coq Require Import List NArith ZArith Bool Permutation Sorted.
 From Mcap Require Import Bytes GoSem Records Reader Iter.
 Import ListNotations.
